@@ -37,6 +37,12 @@ CLAIMED = {
     "C10": sim("DESIGN.md §4 C10",
         "runtime monitoring: schedule/promise co-transition monitor against the check's own cron enumerator and id-template expander",
         "Clock patterns (sub-period steps, exact periods, jumps over many occurrences, crash + later restart), create/delete/re-create racing the firing cycle, users creating an occurrence's id first. Every change of a schedule row must be (last := old next, next := the following occurrence by the check's own cron enumerator) at a tick >= old next, once per occurrence, in a commit after which the occurrence's promise exists; a promise created by the cycle must carry template id, timeout = occurrence + promiseTimeout, param, tags + marker tags; nothing fires for an occurrence later than the deletion."),
+    "C11": sim("DESIGN.md §4 C11",
+        "runtime monitoring: bounded-progress restatement - quiescence predicate on the observed tables after a number of logical background cycles computed from the state and configuration",
+        "Liveness is restated as bounded progress. A reachable state is built with background processing off (overdue promises, expired locks, schedules with missed occurrences, init/enqueued/claimed tasks, registrations), clients fall silent, the clock jumps, a server with a configuration from the grid (promise/schedule/task batch 1,2,7,100; coroutine pool 1,2,3,100; completion/submission batch 1..100; periods) runs under a finite prefix of injected store/router/transport failures until every background coroutine has started B instances (B computed from the state, counted in cycles not seconds). Then: no promise pending past its timeout, no lock past its lease, no schedule with a next run in the past, no enqueued/claimed task past lease/timeout, no dispatchable task waiting for more than K dispatch cycles; and no background coroutine may stop starting instances."),
+    "C14": sim("DESIGN.md §4 C14",
+        "runtime monitoring: set/sequence oracle over complete cursor traversals (must-return / may-return sets from the observed snapshots, order, page size, cursor presence, forged cursors)",
+        "Populations of 0-250 promises and 0-45 schedules with structured ids, all five states, tag sets; queries (prefix/suffix/infix/multi wildcards, every state filter, tag subsets, limits 1..100) are built with the real request helper and followed through real signed cursors to the end while other clients create, complete and the clock crosses deadlines, schedules are deleted. Judged per traversal: must (matched by stored state in every snapshot of the window) subset of returned subset of may (matched at some instant by stored or clock-derived state), no duplicates, strictly newest-first, page <= limit, cursor present iff the page was full, nothing pending past its deadline, tampered cursors refused."),
 }
 
 PENDING_REASON = "check for this property is not built yet in this round (machinery under construction; see DESIGN.md §9 build order)"
